@@ -799,6 +799,11 @@ func (fr *Frame) makeInterface(st *State, v Val, from types.Type) Val {
 	if _, ok := from.Underlying().(*types.Pointer); ok {
 		return Val{S: []Term{tid, v.S[0], v.S[1]}}
 	}
+	// single integer-like slot (ints, maps, channels): the value itself is the
+	// payload, so equal values give equal interface values
+	if ks := vc.p.lay.of(from).Kinds; len(ks) == 1 && ks[0] == KI {
+		return Val{S: []Term{tid, v.S[0], "0"}}
+	}
 	// box the value in a fresh immutable cell
 	r := vc.newObject(st, "box", nil, vc.p.lay.of(from).Kinds)
 	v.T = from
@@ -975,6 +980,8 @@ func (fr *Frame) execTypeAssert(st *State, x *ssa.TypeAssert) {
 		ok = tEq(v.S[0], tInt(int64(vc.p.typeID(at))))
 		if _, isPtr := at.Underlying().(*types.Pointer); isPtr {
 			res = Val{T: at, S: []Term{v.S[1], v.S[2]}}
+		} else if ks := vc.p.lay.of(at).Kinds; len(ks) == 1 && ks[0] == KI {
+			res = Val{T: at, S: []Term{v.S[1]}}
 		} else {
 			res = vc.loadAt(st, v.S[1], v.S[2], at)
 		}
